@@ -107,6 +107,8 @@ impl Crumbs {
 }
 
 pub const WORKER_STACK: usize = 1 << 20;
+/// above this many runs per phase, distinct digests are counted on a 1/16 sub-sample
+pub const DIGEST_EXACT_LIMIT: u64 = 64_000_000;
 
 /// Run `range` of the phase on `threads` workers.
 pub fn run_phase(phase: &dyn Phase, seed: u64, range: (u64, u64), threads: usize, crumbs: &Crumbs, log_runs: bool) -> PhaseResult {
@@ -117,6 +119,8 @@ pub fn run_phase(phase: &dyn Phase, seed: u64, range: (u64, u64), threads: usize
     let stop_at = AtomicU64::new(u64::MAX);
     let merged: Mutex<(Stats, Vec<Found>, u64)> = Mutex::new((Stats::default(), vec![], 0));
     let samples = phase.sample_runs();
+    // very large batches count distinct digests on the 1/16 sub-sample `digest % 16 == 0` (a lower bound)
+    let sample_digests = phase.runs() > DIGEST_EXACT_LIMIT;
     // heartbeat per worker: (runs executed, 1 while inside a run). A run that makes no progress for
     // `hang_limit` seconds is a hang inside the system under test: the process aborts, leaving the
     // breadcrumbs for the supervisor (in-process phases only; child-process phases have their own limits).
@@ -170,7 +174,7 @@ pub fn run_phase(phase: &dyn Phase, seed: u64, range: (u64, u64), threads: usize
                         let sc = g.sc;
                         st.evaluations += 1;
                         done += 1;
-                        if ex.nontrivial { st.digests_nontrivial.push(ex.digest); }
+                        if ex.nontrivial && (!sample_digests || ex.digest & 15 == 0) { st.digests_nontrivial.push(ex.digest); }
                         if let Some(log) = st.runlog.as_mut() { log.push((run, ex.digest, ex.outcome)); }
                         if samples.contains(&run) { st.samples.insert(run, sc.sample_json()); }
                         if let Some(v) = ex.violation {
